@@ -26,6 +26,7 @@ fn usage() -> ! {
     std::process::exit(2)
 }
 
+#[derive(Clone)]
 pub struct Opts {
     pub seed: u64,
     pub n: usize,
